@@ -824,9 +824,12 @@ package engine
 //@   ensures result.environment == state.environment && result.currentValue != nil
 //@   loop 1 invariant expr_state.environment == state.environment && expr_state.currentValue != nil
 //@   loop 2 invariant expr_state.environment == state.environment && expr_state.currentValue != nil
-//@ func executeLoop [C09]
+// a loop statement ends normally or by `return`: a `break` or `continue` of its body never escapes it
+// (C05: the statements after a loop in a transform function run, and an enclosing loop goes on)
+//@ func executeLoop [C09 C05]
 //@   requires s != nil && stOk(state)
 //@   modifies inferred
+//@   ensures contained: result.status == NEXT || result.status == RETURNING
 //@   ensures result.environment == state.environment && result.currentValue != nil
 //@   loop 1 invariant expr_state.environment == state.environment && expr_state.currentValue != nil
 //@   loop 2 invariant expr_state.environment == state.environment && expr_state.currentValue != nil
@@ -1033,6 +1036,10 @@ package engine
 //@   ensures replacement: forall j :: { result[j] } 0 <= j && j < len(result) ==> replText(result[j]) == select(select(R, j), nr) && select(select(R, j), 0) == "" && (forall k :: { c.Replacer[k] } 0 <= k && k < nr ==> stepText(select(R, j), k, c.Replacer[k], result[j], len(result))) [C05]
 //@   ensures window: (c.Last != 0 ==> len(result) <= c.Last) && (!c.All && c.Last == 0 ==> len(result) <= c.Take) && (len(result) > 0 ==> result[0].MatchNumber > c.Skip) && (c.Last == 0 && len(result) > 0 ==> result[0].MatchNumber == c.Skip + 1) [C04]
 //@   ensures numbered: forall k :: { result[k] } { result[k + 1] } 0 <= k && k + 1 < len(result) ==> result[k + 1].MatchNumber == result[k].MatchNumber + 1 [C04]
+// OVERWRITE: when the writer that truncates the searched file is opened, the text the splice copies from
+// is held in memory (a reader backed by that very file would read what the writer leaves of it; the ghost
+// file content of a reader does not model that, so it is pinned here)
+//@   atcall WriterFromFile source: mode == OVERWRITE ==> !rdIsFile(replaceReader) [C06]
 //@   ensures nothing: mode == NOTHING ==> fs == fs0 [C06]
 //@   ensures splice: mode != NOTHING ==> fs == store(fs0, destName(mode, filename), select(S, len(result)) ++ ssub(d, select(O, len(result)), len(d))) [C06]
 //@   ensures recurrence: select(S, 0) == "" && select(O, 0) == 0 && (forall k :: { result[k] } 0 <= k && k < len(result) ==> select(S, k + 1) == select(S, k) ++ ssub(d, select(O, k), result[k].Offset.Start) ++ replText(result[k]) && select(O, k + 1) == result[k].Offset.End) [C06]
@@ -1051,6 +1058,7 @@ package engine
 //@   loop 3 ghost O (Array Int Int) := store(O, 0, 0) ;; store(O, i, replacedMatches[i - 1].Offset.Start + len(replacedMatches[i - 1].Value))
 //@   loop 3 invariant bounds: 0 <= i && i <= len(replacedMatches) && wInv(writer) && reader.size == len(d)
 //@   loop 3 invariant source: rdInv(replaceReader) && rdData(replaceReader) == d
+//@   loop 3 invariant inmemory: mode == OVERWRITE ==> !rdIsFile(replaceReader) [C06]
 //@   loop 3 invariant io: mode == NOTHING ? (!wIsFile(writer) && fs == fs0) : (wIsFile(writer) && wFile(writer).name == destName(mode, filename) && fs == store(fs0, destName(mode, filename), select(S, i)))
 //@   loop 3 invariant apart: (mode == NOTHING ==> fresh((writer.contents as *files.MemoryStream).contents)) && (rdIsFile(replaceReader) ==> !fresh(rdBF(replaceReader).buffer))
 //@   loop 3 invariant offsets: currentWriterOffset == len(select(S, i)) && lastReaderOffset == select(O, i) && 0 <= lastReaderOffset && lastReaderOffset <= len(d) && (i > 0 ==> lastReaderOffset == replacedMatches[i - 1].Offset.End)
